@@ -42,6 +42,12 @@ class C08(HistoryProp):
         scripts = []
         for _ in range(2 + src.n(3)):
             preds, clauses = gen.gen_program(src, CFG)
+            if src.n(4) == 3:
+                # a wide predicate (arity 10 or 11) and a caller of it
+                n = 10 + src.n(2)
+                row = tuple(('i', i) if i else src.pick(CONSTS[:3]) for i in range(n))
+                clauses = list(clauses) + [(('f', 'wide', row), ('true',)),
+                                           (('f', 'p', (('v', 'W0'),)), ('call', ('f', 'wide', (('v', 'W0'),) + tuple(('v', 'W%d' % i) for i in range(1, n)))))]
             scripts.append(clauses)
         defined = set()      # keys with a compiled or registered definition
         variadic = set()
@@ -59,6 +65,9 @@ class C08(HistoryProp):
                 out.append(['run', E, ('f', nm, tuple(src.pick(CONSTS[:3]) if src.n(2) else ('v', 'Q%d' % i) for i in range(n))) if n else ('a', nm), 5])
             if src.n(4) == 0:
                 out.append(['run', E, ('f', 'unknown', (('v', 'Q0'),)), 5])
+            if src.n(5) == 0:
+                n = 10 + src.n(2)
+                out.append(['run', E, ('f', 'wide', tuple(('v', 'Q%d' % i) for i in range(n))), 5])
             return out
         for _ in range(4 + src.n(12)):
             k = src.n(12)
